@@ -1,6 +1,7 @@
 (* Model/C11_Check.v - comparison of what midgard returned (observed, doubles shipped exactly) with the model's
    result, evaluated inside Coq by the correspondence check.  Verdicts: 0 = equals the specification model,
-   2 = equals the model with quirk q_blank_dropped, 1 = unexplained difference, 3 = the columns of the observed
+   2 = equals the model with quirks q_blank_dropped + q_century_from_first_obs, 4 = equals the model with quirk
+   q_century_from_first_obs only, 1 = unexplained difference, 3 = the columns of the observed
    record table do not all have the same length. *)
 From Coq Require Import Ascii String List Bool Arith ZArith QArith.
 From Verif Require Import Lib.Text Lib.Decimal Lib.Fixed Lib.Dyadic Model.C11_Rinex.
@@ -110,6 +111,7 @@ Definition check_file (c : bool * option Q * list string * option observed) : Z 
   if negb rect then 3%Z
   else if v3 then (if opt_match true (model_v3 rate lines) o then 0%Z else 1%Z)
   else if opt_match false (model_v2 spec_q rate lines) o then 0%Z
+  else if opt_match false (model_v2 cent_q rate lines) o then 4%Z
   else if opt_match false (model_v2 impl_q rate lines) o then 2%Z
   else 1%Z.
 
@@ -142,4 +144,5 @@ Definition check_file_spec (c : bool * option Q * list string * option observed)
     let th := override_h S.v2_header_spec Gen.C11_Rinex2ObsFields.header_table in
     let to := override_o S.v2_obs_spec Gen.C11_Rinex2ObsFields.obs_table in
     if opt_match false (parse_v2 spec_q th to rate lines) o then 0%Z
+    else if opt_match false (parse_v2 cent_q th to rate lines) o then 4%Z
     else if opt_match false (parse_v2 impl_q th to rate lines) o then 2%Z else 1%Z.
